@@ -508,6 +508,7 @@ func init() {
 			"A2 API contract: the creator of a new page writes it and unpins it dirty; a user that wrote a page unpins it dirty; FetchPage only for live page ids; at most 2 pins per user and one pin per (user,page)",
 			"deallocation only in the two call patterns the code base uses: hash-join style DeallocatePage(p, noWait=true) by the creator (the creator's last pin, if still held, is never returned - the frame is then NOT assumed to be reclaimed), skip-list style SetIsDeallocated -> UnpinPage -> DeallocatePage(p,false) by the only pin holder",
 			"New/Fetch are only issued when the model knows a frame that is neither pinned nor given up exists (an exhausted pool panics by design)",
+			"Engine C part: two or three goroutines, each writing its own byte lane of shared pages, on 1-3 frames; a fetch that finds every frame pinned returns nil and the step is skipped (legal); the scenario with FlushAllDirtyPages over two resident pages contains map-order nondeterminism and is reported as not exhaustive",
 		},
 		Run: func(c *core.Ctx) {
 			for _, cfg := range c13Configs(c.Thorough()) {
@@ -527,13 +528,37 @@ func init() {
 				}
 				core.BFS(c, sc)
 			}
+			for _, sc := range c13cScenarios(c.Thorough()) {
+				if c.Expired() {
+					return
+				}
+				core.ExploreSched(c, sc)
+			}
 		},
 		Replay: func(raw json.RawMessage) (string, bool) {
 			var rp struct {
-				History []string `json:"history"`
-				Params  c13Cfg   `json:"params"`
+				History  []string `json:"history"`
+				Params   c13Cfg   `json:"params"`
+				Scenario string   `json:"scenario"`
+				Choices  []int    `json:"choices"`
 			}
 			json.Unmarshal(raw, &rp)
+			if rp.Scenario != "" {
+				for _, sc := range c13cScenarios(true) {
+					if sc.Name == rp.Scenario {
+						x, v, out, div := core.RunSchedule(sc, rp.Choices)
+						desc := fmt.Sprintf("%s: schedule of %d points -> %s %s", sc.Name, len(x.Trace), out, div)
+						for i, p := range x.Trace {
+							desc += fmt.Sprintf("\n  point %d: thread %d arrives at %v obj %d; enabled %v, chosen index %d", i, p.Thread, p.Kind, p.Obj, p.Enabled, p.Chosen)
+						}
+						if v != nil {
+							return desc + "\n" + v.Detail, true
+						}
+						return desc, false
+					}
+				}
+				return "scenario not found: " + rp.Scenario, false
+			}
 			return core.ReplayHistory(func() core.Instance { return newC13(rp.Params) }, rp.History)
 		},
 	})
